@@ -3,6 +3,7 @@ package props
 import (
 	"fmt"
 	"math/big"
+	"reflect"
 	"strings"
 	"testing"
 
@@ -10,7 +11,14 @@ import (
 	"verif/cs"
 	"verif/eng"
 	"verif/rec"
+	"verif/ref"
 	"verif/wv"
+
+	"github.com/consensys/gnark/frontend"
+	"github.com/wormhole-foundation/example-near-light-client/types"
+	"github.com/wormhole-foundation/example-near-light-client/variables"
+	"github.com/wormhole-foundation/example-near-light-client/verifier"
+	"pgregory.net/rapid"
 )
 
 // C17 Non-canonical encodings of proof elements are rejected everywhere.
@@ -87,13 +95,172 @@ func c17Run(c c17Case) (viol bool, desc string, res eng.Result) {
 	return true, fmt.Sprintf("%s leaf %s = %s + %s*p accepted (native and bit-decomposition flavours)", rn.in.Name(), c.Leaf, rn.orig[i], c.Off), res
 }
 
+// ---- range-check stage on generated residues -------------------------------------------------
+//
+// The corpus proofs contain (pseudo-)random field elements only, so re-encoding their values
+// never produces, e.g., a small residue plus p.  The stage check runs the verifier's canonical-form
+// stage alone (hook VerifRangeCheckProof = the first step of Verify) on a proof in which one
+// position holds a generated residue (edge-heavy): the canonical encoding must be accepted with
+// the shipped hints, every encoding residue + m*p < r must be rejected.
+
+type c17Stage struct {
+	Proof variables.Proof
+	CD    types.CommonCircuitData `gnark:"-"`
+}
+
+func (c *c17Stage) Define(api frontend.API) error {
+	verifier.NewVerifierChip(api, c.CD).VerifRangeCheckProof(c.Proof)
+	return nil
+}
+
+type c17StageCase struct {
+	Base    string `json:"base"`
+	K       int    `json:"k"`
+	Leaf    string `json:"leaf"`
+	Residue string `json:"residue"`
+	M       string `json:"multiple_of_p"`
+	Mode    int    `json:"mode"`
+}
+
+type c17StageRunner struct {
+	tmpl, asg *c17Stage
+	leaves    []wv.Leaf
+	vals      []reflect.Value
+	orig      []*big.Int
+	byName    map[string]int
+	elig      []int
+}
+
+var c17Stages = map[string]*c17StageRunner{}
+
+func c17StageFor(base string, k int) *c17StageRunner {
+	key := fmt.Sprintf("%s/%d", base, k)
+	if s := c17Stages[key]; s != nil {
+		return s
+	}
+	in := wv.Load(base, k)
+	a, b := in.Circuit(), in.Circuit()
+	s := &c17StageRunner{tmpl: &c17Stage{Proof: a.Proof, CD: a.CommonCircuitData}, asg: &c17Stage{Proof: b.Proof, CD: b.CommonCircuitData}, byName: map[string]int{}}
+	s.leaves, s.vals = wv.Leaves(s.asg)
+	for i, v := range s.vals {
+		s.orig = append(s.orig, wv.Value(v))
+		s.byName[s.leaves[i].Name] = i
+		if c17Eligible(s.leaves[i].Name) {
+			s.elig = append(s.elig, i)
+		}
+	}
+	c17Stages[key] = s
+	return s
+}
+
+func c17StageRun(c c17StageCase) (viol string, desc string, info map[string]any) {
+	s := c17StageFor(c.Base, c.K)
+	i, ok := s.byName[c.Leaf]
+	if !ok {
+		panic("unknown leaf " + c.Leaf)
+	}
+	v, m := bs(c.Residue), bs(c.M)
+	defer wv.Set(s.vals[i], s.orig[i])
+	wv.Set(s.vals[i], v)
+	res := eng.Run(s.tmpl, s.asg, eng.Options{Mode: eng.Mode(c.Mode)})
+	info = map[string]any{"canonical": res.Outcome.String()}
+	if res.Outcome != eng.Accept {
+		return "canonical-rejected", fmt.Sprintf("%s/k=%d range-check stage (%s flavour): canonical value %s at %s is not accepted: %s", c.Base, c.K, eng.Mode(c.Mode), v, c.Leaf, fmtRes(res)), info
+	}
+	if res.TolerantHints > 0 {
+		return "shipped-hint-failed", fmt.Sprintf("%s/k=%d range-check stage: shipped hint failed on canonical value %s at %s", c.Base, c.K, v, c.Leaf), info
+	}
+	x := new(big.Int).Mul(m, bigP)
+	x.Add(x, v)
+	if m.Sign() == 0 || x.Cmp(bigR) >= 0 {
+		return "", "", info
+	}
+	wv.Set(s.vals[i], x)
+	res = eng.Run(s.tmpl, s.asg, eng.Options{Mode: eng.Mode(c.Mode)})
+	info["noncanonical"] = res.Outcome.String()
+	info["rejected_at"] = res.Site
+	if res.Outcome == eng.Accept {
+		// two-stage confirmation: a wrong ACCEPT must also show under bit decomposition
+		res2 := eng.Run(s.tmpl, s.asg, eng.Options{Mode: eng.ModePlain})
+		if res2.Outcome == eng.Accept {
+			return "noncanonical-accepted", fmt.Sprintf("%s/k=%d range-check stage of the verifier: %s = %s + %s*p is ACCEPTED (%s flavour and bit decomposition)", c.Base, c.K, c.Leaf, v, m, eng.Mode(c.Mode)), info
+		}
+	}
+	return "", "", info
+}
+
+var c17Residues = []uint64{0, 1, 2, 5, 65541, 1<<31 - 1, 1 << 31, 1<<32 - 2, 1<<32 - 1, 1 << 32, 1<<32 + 1, 1<<63 - 1, 1 << 63,
+	ref.P - (1 << 32) - 1, ref.P - (1 << 32), ref.P - 2, ref.P - 1, 0x7fffffff00000001, 0x7fffffffffffffff, 0xfffffffe00000001}
+
+func c17StageCases(t *testing.T, r *rec.Rec) {
+	n := rec.Share(tierN(1800, 40000))
+	rec.SetRapid("c17stage", n)
+	rapid.Check(t, func(rt *rapid.T) {
+		base := rapid.SampledFrom([]string{"A1", "A1", "B1"}).Draw(rt, "base")
+		s := c17StageFor(base, 1)
+		li := s.elig[rapid.IntRange(0, len(s.elig)-1).Draw(rt, "leaf")]
+		var v *big.Int
+		if rapid.IntRange(0, 3).Draw(rt, "rk") == 0 {
+			v = bu(rapid.Uint64Range(0, ref.P-1).Draw(rt, "residue"))
+		} else {
+			v = bu(rapid.SampledFrom(c17Residues).Draw(rt, "edge"))
+		}
+		kmax := new(big.Int).Sub(bigR, big.NewInt(1))
+		kmax.Sub(kmax, v)
+		kmax.Div(kmax, bigP)
+		var m *big.Int
+		switch rapid.IntRange(0, 5).Draw(rt, "mk") {
+		case 0, 1:
+			m = big.NewInt(1)
+		case 2:
+			m = big.NewInt(int64(rapid.IntRange(2, 9).Draw(rt, "msmall")))
+		case 3:
+			m = pow2(uint(rapid.IntRange(1, 189).Draw(rt, "mpow")))
+		case 4:
+			m = kmax
+		default:
+			m = genBigBelow(kmax).Draw(rt, "m")
+			if m.Sign() == 0 {
+				m = big.NewInt(1)
+			}
+		}
+		mode := rapid.SampledFrom([]int{int(eng.ModeNative), int(eng.ModeNative), int(eng.ModePlain)}).Draw(rt, "mode")
+		c := c17StageCase{Base: base, K: 1, Leaf: s.leaves[li].Name, Residue: v.String(), M: m.String(), Mode: mode}
+		viol, d, info := c17StageRun(c)
+		cls := "stage/random-residue"
+		if v.Cmp(pow2(32)) < 0 {
+			cls = "stage/residue<2^32"
+		} else if new(big.Int).Sub(bigP, v).Cmp(pow2(33)) < 0 {
+			cls = "stage/residue-near-p"
+		} else if v.BitLen() <= 63 && v.Cmp(pow2(62)) > 0 && rapid.Bool().Draw(rt, "dummy") {
+			cls = "stage/residue-near-2^63"
+		}
+		r.Case(cls+"/"+s.leaves[li].Kind, true, "stage"+fmt.Sprint(c), func() any { return map[string]any{"stage_case": c, "info": info} })
+		if viol != "" {
+			r.Fail(rt, "C17/stage/"+viol+"/"+s.leaves[li].Kind, map[string]any{"stage": c}, "%s", d)
+		}
+	})
+}
+
 func TestC17(t *testing.T) {
 	r := rec.New("C17")
 	defer r.Flush()
-	r.Rule("every Goldilocks-valued proof leaf position (schema walk of the proof: openings, initial-tree leaf elements, step evaluations, final-polynomial coefficients, PoW witness; ~10.9k per proof) of the listed instances x offset k*p for k in {1, 2, 2^64, largest k keeping the value < r}; deterministic enumeration sharded by position (quick: on A1 every position outside the query rounds, every position of query rounds 0, 13 and 27 and every 5th position of the other rounds with k=1; every 7th position of B1 and every 23rd of the others with a rotating offset; thorough: all positions x all four offsets x all five proofs).  Additionally one position of every leaf kind is re-encoded on the whole circuit compiled to R1CS with the commit range checker (one query round) and handed to gnark's solver.  Oracle: whole VerifierCircuit must not ACCEPT (candidates re-checked under bit decomposition).  Every case is non-trivial (offset >= p changes the encoding, not the residue); distinct = (instance, leaf, offset).")
+	r.Rule("every Goldilocks-valued proof leaf position (schema walk of the proof: openings, initial-tree leaf elements, step evaluations, final-polynomial coefficients, PoW witness; ~10.9k per proof) of the listed instances x offset k*p for k in {1, 2, 2^64, largest k keeping the value < r}; deterministic enumeration sharded by position (quick: on A1 every position outside the query rounds, every position of query rounds 0, 13 and 27 and every 5th position of the other rounds with k=1; every 7th position of B1 and every 23rd of the others with a rotating offset; thorough: all positions x all four offsets x all five proofs).  Additionally one position of every leaf kind is re-encoded on the whole circuit compiled to R1CS with the commit range checker (one query round) and handed to gnark's solver.  Oracle: whole VerifierCircuit must not ACCEPT (candidates re-checked under bit decomposition).  Additionally (stage check) the verifier's canonical-form stage alone (first step of Verify) on A1/B1 with one rapid-drawn position holding a generated residue (edge-heavy: 0, 1, <2^32, around 2^31/2^32/2^63, just below p, uniform) -- canonical encoding must be ACCEPTED with the shipped hints, residue + m*p (m in {1, 2..9, 2^j, largest, random}) must be REJECTED.  Every case is non-trivial (offset >= p changes the encoding, not the residue); distinct = (instance, leaf, offset[, residue]).")
 	r.Assume("engine native flavour has exact range-check semantics (C06)", "the range-check sweep is evaluated before anything else, so a rejected case costs milliseconds")
 
 	var rp c17Case
+	var rps struct {
+		Stage *c17StageCase `json:"stage"`
+	}
+	if is, _ := rec.LoadReplay(&rps); is && rps.Stage != nil {
+		viol, d, _ := c17StageRun(*rps.Stage)
+		r.Case("replay", true, fmt.Sprint(*rps.Stage), func() any { return rps.Stage })
+		if viol != "" {
+			r.Fail(t, "C17/stage/"+viol, rps, "%s", d)
+		}
+		r.Done()
+		return
+	}
 	if is, err := rec.LoadReplay(&rp); is {
 		if err != nil {
 			r.Infra(t, "replay: %v", err)
@@ -181,6 +348,7 @@ func TestC17(t *testing.T) {
 			}
 		}
 	}
+	c17StageCases(t, r)
 	r.Extra("rejecting_sites", sites)
 	r.Done()
 }
